@@ -104,7 +104,8 @@ Proof.
     assert (U : u = 0) by (cbn in Ef; injection Ef as _ <-; reflexivity).
     repeat split.
     + intros t I. apply in_app_or in I. destruct I as [I|I]; [|auto].
-      destruct (has_save fx); [|contradiction]. destruct I as [<-|[<-|[]]]; assumption.
+      destruct (has_save fx); [destruct I as [<-|[<-|[]]]; assumption|].
+      destruct (save_failed fx); [destruct I as [<-|[]]; assumption|contradiction].
     + intros NP t I. apply in_app_or in I. destruct I as [I|I]; [|auto].
       eapply audit_terms_safe; eassumption.
     + rewrite count_reopens_call. subst. destruct (has_save fx); reflexivity.
